@@ -3,7 +3,7 @@ CONSTANTS
    MaxLogs = 1
    DestNames <- Dests_a
    MaxSet = 2
-   LvlFirst = {0, 3, 6}
+   LvlFirst = {3}
    ClsFirst <- Cls_1_6_none
    LvlLast = {0, 1, 2, 3, 4, 5, 6}
    FullLast = TRUE
